@@ -11,7 +11,7 @@ def reqOfLookup (n : Nat) : Option Required := (lookup n).getD (some [])
 
 def keepLocal (n i : Nat) (a : Audit) : Bool :=
   match lookup n with
-  | some (some r) => if (modeOf n).pruneNonImportable then a.importable || r.has (.localAudit i) else true
+  | some (some r) => if (modeOf n).pruneNonImportable then a.importable || isViolation a || r.has (.localAudit i) else true
   | _ => true
 
 def keepAudit (ii n i : Nat) (a : Audit) : Bool :=
@@ -94,7 +94,7 @@ theorem getStoreUpdates_shape {w : World} {modeOf : Nat → UpdateMode} {u : Upd
             have hk : keepLocal modeOf (fun n => assoc? n required) n = fun i a =>
                 match assoc? n required with
                 | some (some r) =>
-                  if (modeOf n).pruneNonImportable then a.importable || r.has (.localAudit i) else true
+                  if (modeOf n).pruneNonImportable then a.importable || isViolation a || r.has (.localAudit i) else true
                 | _ => true := rfl
             rw [hk]
             simp only
